@@ -162,6 +162,7 @@ class Opts(object):
         self.short_last_p = 0.0          # chance per eligible segment of a stated short final chunk ("less data than expected")
         self.common_names_p = 0.3        # chance per world that names come from a tiny fixed pool: files handled one after another
                                          # in a process then share object paths, as files from one measurement setup do
+        self.flip_layout_p = 0.12        # chance per metadata-less segment (two or more data objects) that it states the other data layout
         self.declared_huge_p = 0.0       # chance per world that the last segment states a chunk of 4 GiB of which only a little was written
         self.long_run_p = 0.0            # chance per world of 100-260 consecutive metadata-less segments (a streamed file)
         self.very_long_run_p = 0.0       # ... of 1000-1300 of them (a fragmented log; deeper than any per-segment recursion)
@@ -377,6 +378,13 @@ def gen_spec(rng, o):
             seg['layout'] = prev['layout']
             seg['new_obj_list'] = False
         data_objs = [a for a in active if a[1]]
+        if not meta and len(data_objs) >= 2 and seg['layout'] in ('contiguous', 'interleaved') and rng.random() < o.flip_layout_p:
+            # the data layout is a flag of each lead-in: a segment without metadata may state the other layout than the segment
+            # whose object list it re-uses (a writer that takes the layout per call)
+            other = 'contiguous' if seg['layout'] == 'interleaved' else 'interleaved'
+            if other == 'contiguous' or (all(a[2]['type'] != 'str' for a in data_objs)
+                                         and len(set(a[2]['count'] for a in data_objs)) == 1):
+                seg['layout'] = other
         # string totals for full string indexes are fixed by the first chunk generated
         chunk_bytes = 0
         for a in data_objs:
